@@ -247,5 +247,8 @@ func init() {
 	for _, pr := range []string{"C02", "C16", "C06"} {
 		reg(&HarnessSpec{Prop: pr, Name: "G:edge", What: whatG + " - corpus case edge (a receiver / named result called e or i, i.e. like the copy loops' variables; :stringer on a pointer field that may be nil; a function generated in the same run used as converter on a nested pointer that may be nil; additional arguments and $1 mapped into members of a nested struct; :typecast converting whole convertible structs and pointers)", Bounds: "6 generated functions; pointer depth 3; slice length <= 2", Assumes: []string{aG}})
 	}
+	for _, pr := range []string{"C02", "C06", "C07", "C10", "C16"} {
+		reg(&HarnessSpec{Prop: pr, Name: "G:mix", What: whatG + " - corpus case mix (arrays, maps that are nil or not, pointers to pointers, slices of named types converted element-wise into fresh storage, nested structs of different types two levels deep copied member by member, a converter on a whole struct, an error-returning converter on a pointer whose failure ends the function before any later assignment or hook, an error-returning post hook with receiver + arg style, getter chains and nil-guarded pointer paths in :map/:conv, :skip and :literal on members of a nested struct, templated paths into an additional pointer argument, a post hook taking the additional arguments, a case-insensitive :skip regexp, a :literal holding white space, skipped members keeping the caller's value in arg style)", Bounds: "7 generated functions; pointer depth 3; slice length <= 2", Assumes: []string{aG}})
+	}
 	reg(&HarnessSpec{Prop: "C13", Name: "G:more", What: "every corpus case is generated twice in fresh processes: exit status, diagnostics and output bytes must be identical (end-to-end validation of determinism on the corpus)", Bounds: "corpus, 2 runs per case", Assumes: []string{aG}})
 }
